@@ -217,6 +217,8 @@ class Sched:
         self.switch(me)
 
     def sleep(self, d):
+        if d < 0:
+            raise ValueError('sleep length must be non-negative')       # as time.sleep does
         me = self._mine()
         if me is None:
             return
